@@ -347,17 +347,20 @@ func r14c(c *core.Ctx) {
 				bound := int64(-1)
 				var retryPhi *ssa.Phi
 				for _, cnd := range core.CondsAt(b) {
-					bo, ok := cnd.Cond.(*ssa.BinOp)
-					if !ok || !cnd.Val {
+					// any spelling of `retry < K` holding on this edge: retry < K, !(retry >= K), !(retry > K-1), K > retry …
+					cm, ok := core.CmpOf(cnd.Cond)
+					if !ok || cm.Op != "<" {
 						continue
 					}
-					if k, isC := core.ConstInt(bo.Y); isC && (bo.Op == token.LSS || bo.Op == token.LEQ) {
-						if p, ok := bo.X.(*ssa.Phi); ok && p.Block() == s {
-							retryPhi = p
-							bound = k
-							if bo.Op == token.LEQ {
-								bound = k + 1
-							}
+					truth := cnd.Val != cm.Neg
+					if p, isPhi := cm.XV.(*ssa.Phi); isPhi && p.Block() == s && truth { // retry < k
+						if k, isC := core.ConstInt(cm.YV); isC {
+							retryPhi, bound = p, k
+						}
+					}
+					if p, isPhi := cm.YV.(*ssa.Phi); isPhi && p.Block() == s && !truth { // !(k < retry): retry <= k
+						if k, isC := core.ConstInt(cm.XV); isC {
+							retryPhi, bound = p, k+1
 						}
 					}
 				}
